@@ -231,7 +231,55 @@ def t2_case(case) -> List[Tuple[str, str]]:
                    "ranking": {"alpha_sim": 0.5, "beta_recency": 0.25, "gamma_importance": 0.25}}}
     par = {"perf": {"enabled": True, "parallel": {"enabled": True, "t2": True, "max_workers": workers}}}
     eps = _t2_world(seed, n)
+    if case.get("shape") == "crafted":
+        # two recent rows in the one cluster that is searched (the cluster tier returns them again), old rows elsewhere, k above
+        # what the first two tiers give: the archive rows of every shard are needed; the rows are listed in a seeded order so
+        # that the recent rows share a shard with a needed old row in about half of the cases
+        import math as _m
+        from ..engine import hash_vec
+        text = "cherry"
+        qv = [float(x) for x in hash_vec(text, 32)]
+        qn = _m.sqrt(sum(x * x for x in qv)) or 1.0
+        qh = [x / qn for x in qv]
+        uv = [float(x) for x in hash_vec("zz orthogonal noise", 32)]
+        dot = sum(a_ * b_ for a_, b_ in zip(uv, qh))
+        uv = [a_ - dot * b_ for a_, b_ in zip(uv, qh)]
+        un = _m.sqrt(sum(x * x for x in uv)) or 1.0
+        uh = [x / un for x in uv]
+
+        def vec(c_):
+            return [c_ * a_ + _m.sqrt(max(0.0, 1 - c_ * c_)) * b_ for a_, b_ in zip(qh, uh)]
+        rw = rng(seed, "t2crafted")
+        rows = [("r1", 0.9, False, "c1"), ("r2", 0.8, False, "c1"), ("o1", 0.6, True, "c2"), ("o2", 0.5, True, "c3"), ("o3", 0.3, True, "c2"), ("o4", 0.2, True, "c3")]
+        rows += [(f"o{5 + j}", 0.1 - 0.02 * j, True, rw.choice(["c2", "c3"])) for j in range(max(0, n - 6))]
+        if seed % 2:
+            rw.shuffle(rows)
+        else:                           # neighbours stay neighbours (shards are runs of the backing list): a rotation of the list
+            rot = (seed // 2) % len(rows)
+            rows = rows[rot:] + rows[:rot]
+        eps = [E.mk_episode(i_, "A", f"row {i_}", ts="2025-02-11T00:00:00Z" if old_ else "2025-08-27T00:00:00Z", importance=0.5, cluster=cl_, vec=vec(c_))
+               for (i_, c_, old_, cl_) in rows]
+        over["t2"].update({"sim_threshold": -1.0, "k_retrieval": case.get("k", 4), "tiers": ["exact_semantic", "cluster_semantic", "archive"],
+                           "clusters_top_m": 1, "exact_recent_days": 30, "owner_scope": "any"})
+    if case.get("shape") == "tiered":
+        # a result that needs all three tiers: few recent rows (exact tier), one cluster searched, k between what the first
+        # tiers give and what the memory holds - the archive rows of EVERY shard are then needed, also of a shard whose exact
+        # and cluster tiers returned the same rows twice
+        over["t2"].update({"sim_threshold": -1.0, "k_retrieval": r.choice([2, 3, 4, 5]), "tiers": ["exact_semantic", "cluster_semantic", "archive"],
+                           "clusters_top_m": 1, "exact_recent_days": 30, "owner_scope": "any"})
+        rw = rng(seed, "t2tiered")
+        from ..engine import hash_vec
+        for i, e in enumerate(eps):
+            old_ = rw.random() < 0.7
+            e["ts"] = "2025-02-11T00:00:00Z" if old_ else "2025-08-27T00:00:00Z"
+            # the recent rows share a cluster that holds few old rows: when it is the one searched, the cluster tier returns
+            # the exact tier's rows again
+            e.setdefault("aux", {})["cluster_id"] = ("c1" if rw.random() < 0.1 else rw.choice(["c2", "c3"])) if old_ else "c1"
+            e["id"] = f"e{i:02d}"
+            e["vec_full"] = hash_vec(str(e.get("text", "")), 32)
     text = r.choice(["apple banana", "cherry", "fig grape date"])
+    if case.get("shape") == "crafted":
+        text = "cherry"
     outs = []
     old = sys.getswitchinterval()
     import clematis.engine.stages.t2.core as T2C
@@ -355,6 +403,10 @@ def check(run) -> None:
     for seed in range(60 if q else 1500):
         for n in (2, 5, 9):
             t2cases.append({"seed": seed, "n": n, "workers": [2, 3, 4][seed % 3], "jitter": seed % 4 == 0})
+        for n in (6, 8):
+            t2cases.append({"seed": seed, "n": n, "workers": [2, 3][seed % 2], "jitter": False, "shape": "tiered"})
+        if seed < 24 or not q:
+            t2cases.append({"seed": seed, "n": 6 + seed % 3, "workers": 2 + seed % 2, "jitter": False, "shape": "crafted", "k": 3 + seed % 3})
     for c, fails in zip(t2cases, pmap(t2_case, t2cases, chunk=8)):
         run.traces += 1
         run.case(("t2", json.dumps(c, sort_keys=True)))
